@@ -46,6 +46,9 @@ def base_program(pkg, layout="three", import_form="from_import", entry_data=Fals
     E3i = gen.add_fn(p, top, "E3i", params=[("q", None)], const=34)
     E3 = gen.add_fn(p, top, "E3", params=[("p", None)], const=33)
     p["fns"][E3]["stmts"] = [gen.s_keep("/e3i", E3i, [gen.param("p")])]
+    # a kept call whose argument is a call written inside the argument list
+    hn = gen.add_fn(p, mid, "hn", const=35)
+    E4 = gen.add_fn(p, top, "E4", params=[("w", None)], const=36)
     main = gen.add_fn(p, top, "main", const=1, data_path="/main" if entry_data else None)
     p["fns"][main]["stmts"] = [
         gen.s_keep("/a", A, [gen.lit("1"), gen.lit("2")]),
@@ -55,15 +58,16 @@ def base_program(pkg, layout="three", import_form="from_import", entry_data=Fals
         gen.s_keep("/e1", E1, [gen.local(0)]),
         gen.s_keep("/e2", E2, [gen.lit("1"), gen.local(1, kw="z")]),
         gen.s_keep("/e3", E3, [gen.lit("4")]),
+        gen.s_keep("/e4", E4, [gen.callarg(hn)]),
     ]
     p["entry"] = main
     if with_ext:
         p["ext"] = {"pkg": pkg + "_ext", "const": 1, "var": "1", "comment": "c"}
-    p["_ids"] = {"h2": h2, "C": C, "h1": h1, "A": A, "B": B, "D": D, "E1": E1, "E2": E2, "E3": E3, "E3i": E3i, "main": main, "leaf": leaf, "mid": mid, "top": top}
+    p["_ids"] = {"h2": h2, "C": C, "h1": h1, "A": A, "B": B, "D": D, "E1": E1, "E2": E2, "E3": E3, "E3i": E3i, "E4": E4, "hn": hn, "main": main, "leaf": leaf, "mid": mid, "top": top}
     return p
 
 
-POSITIONS = ["A", "h1", "h2", "C", "B", "D", "main"]
+POSITIONS = ["A", "h1", "h2", "C", "B", "D", "main", "hn", "E3i", "E1"]
 
 
 def history_restart(n_versions_seq, style="eval"):
@@ -420,6 +424,9 @@ def random_program(rng, pkg, nfn=None, with_loads=False):
                         args.append(gen.local(rng.randrange(len(f["stmts"]))))
                     elif allow_runtime and r < 0.65 and f["params"]:
                         args.append(gen.param(rng.choice(f["params"])[0]))
+                    elif allow_runtime and r < 0.69 and [h_ for h_ in fids if not p["fns"][h_]["params"] and p["fns"][h_]["data_path"] is None and h_ not in kept_callees and not _has_keep_site(p, h_) and mods.index(p["fns"][h_]["module"]) <= mi]:
+                        # a call written inside the argument list
+                        args.append(gen.callarg(rng.choice([h_ for h_ in fids if not p["fns"][h_]["params"] and p["fns"][h_]["data_path"] is None and h_ not in kept_callees and not _has_keep_site(p, h_) and mods.index(p["fns"][h_]["module"]) <= mi])))
                     elif allow_runtime and r < 0.72 and [v for v in vids if mods.index(p["vars"][v]["module"]) <= mi]:
                         # a tracked module variable passed as an argument (a run-time expression for dds)
                         args.append(gen.varg(rng.choice([v for v in vids if mods.index(p["vars"][v]["module"]) <= mi])))
@@ -486,6 +493,8 @@ def _called_plain(p, g):
         for s in f["stmts"]:
             if s["k"] == "call" and s["fn"] == g:
                 return True
+            if any(a["k"] == "callarg" and a["fn"] == g for a in s.get("args", [])):
+                return True
     for c in p.get("classes", {}).values():
         if c.get("calls") == g:
             return True
@@ -496,6 +505,8 @@ def _referenced(p, g):
     for f in p["fns"].values():
         for s in f["stmts"]:
             if s.get("fn") == g:
+                return True
+            if any(a["k"] == "callarg" and a["fn"] == g for a in s.get("args", [])):
                 return True
     for c in p.get("classes", {}).values():
         if c.get("calls") == g:
